@@ -23,6 +23,7 @@ def c12 : Machine where
     | _ =>
       -- the harness re-polls each side with alternating wakers; waking the one of an earlier poll is a lost wake-up
       if (words out).contains "stale" then (m, some "stale-waker-woken") else
+      if (words out).contains "readbuf-prefix-damaged" then (m, some "read-overwrote-bytes-already-in-the-buffer") else
       match Conduit.parseOp line, Conduit.parseOut out with
       | some op, some o => m.step op o
       | _, _ => (m, some "unparsable")
